@@ -790,8 +790,9 @@ func runRegSched(c caseIn) *caseOut {
 // ------------------------------------------------------------------------------------------------ client mapping cap
 
 type spinBarrier struct {
-	n       int64
-	arrived atomic.Int64
+	n        int64
+	arrived  atomic.Int64
+	timedOut atomic.Bool
 }
 
 type fakeClient struct {
@@ -825,9 +826,14 @@ func (f *fakeClient) GetUserQuota() (*models.UserQuota, error) {
 	// rendezvous here (spin barrier) so that they reach the Load within nanoseconds of each other
 	if b := f.barrier.Load(); b != nil {
 		b.arrived.Add(1)
+		deadline := time.Now().Add(2 * time.Second) // watchdog: a tree that asks for the quota only once never fills the barrier
 		for spins := 0; b.arrived.Load() < b.n; spins++ {
 			if spins%1024 == 1023 {
 				runtime.Gosched()
+				if time.Now().After(deadline) {
+					b.timedOut.Store(true)
+					break
+				}
 			}
 		}
 	}
@@ -904,6 +910,15 @@ func newHandler(ctx context.Context, c caseIn, ad *fakeAdapter) (*mapping.BaseMa
 		cfg.MaxConnections = c.Max
 	}
 	return mapping.NewBaseMappingHandler(fc, cfg, ad), fc
+}
+
+// newHandlerWith: a NEW handler generation for the same mapping and the same client (what a config push installs)
+func newHandlerWith(fc *fakeClient, c caseIn, ad *fakeAdapter) *mapping.BaseMappingHandler {
+	cfg := config.MappingConfig{MappingID: "m1", Protocol: "tcp", LocalPort: 1, TargetClientID: 0}
+	if c.Kind != "user" {
+		cfg.MaxConnections = c.Max
+	}
+	return mapping.NewBaseMappingHandler(fc, cfg, ad)
 }
 
 func runMapRace(c caseIn) *caseOut {
@@ -1030,7 +1045,7 @@ func runMapSeq(c caseIn) *caseOut {
 	defer cancel()
 	ad := &fakeAdapter{}
 	h, fc := newHandler(ctx, c, ad)
-	defer h.Close()
+	defer func() { h.Close() }()
 	countsHolders := c.Pre == 0 // python sets pre=1 on a tree whose counter only covers connections being set up (pre-5fae32e)
 	ecm := &earlyCloseManager{}
 	h.VerifWrapTunnelManager(func(real tunnel.TunnelManager) tunnel.TunnelManager {
@@ -1043,7 +1058,8 @@ func runMapSeq(c caseIn) *caseOut {
 	peerOf := map[int]net.Conn{}
 	tunnelOf := map[int]string{}
 	knownTunnel := map[string]bool{}
-	live := 0 // OPEN connections: running tunnels, including one whose Close() is parked
+	survivors := 0 // connections that outlived a Stop() of their handler (they belong to no current tunnel manager)
+	live := 0      // OPEN connections of the MAPPING: running tunnels, including one whose Close() is parked
 	for _, op := range c.Ops {
 		res := 0
 		if op[0] == 0 || op[0] == 3 {
@@ -1071,6 +1087,46 @@ func runMapSeq(c caseIn) *caseOut {
 					}
 				}
 			}
+		} else if op[0] == 6 {
+			// config push: the mapping's handler is stopped and replaced by a new one.  Stop() must take the mapping's running
+			// connections down with it; whatever survives still counts against the MAPPING's limit, across handler generations
+			for k, lc := range conns {
+				if state[k] == 5 {
+					lc.letClose <- struct{}{}
+					state[k] = 1
+				}
+			}
+			h.Stop()
+			for k, lc := range conns {
+				if state[k] != 1 {
+					continue
+				}
+				closedNow := waitFor(func() bool {
+					select {
+					case <-lc.closed:
+						return true
+					default:
+						return false
+					}
+				})
+				if closedNow {
+					state[k] = 3
+					live--
+					if p := peerOf[k]; p != nil {
+						p.Close()
+					}
+				} else {
+					survivors++ // still open: a connection of the mapping that the new handler does not know about
+				}
+			}
+			h = newHandlerWith(fc, c, ad)
+			ecm = &earlyCloseManager{}
+			h.VerifWrapTunnelManager(func(real tunnel.TunnelManager) tunnel.TunnelManager {
+				ecm.TunnelManager = real
+				return ecm
+			})
+			tm = h.GetTunnelManager()
+			res = 6
 		} else if op[0] == 4 {
 			// the tunnel of arrival k is closed from OUTSIDE the copy loop (peer-closed notification) and the local socket's
 			// Close() does not return yet: the connection is still open and must keep its slot
@@ -1137,11 +1193,11 @@ func runMapSeq(c caseIn) *caseOut {
 			if got := h.VerifActiveConnCount(); got < live && countsHolders {
 				out.fail("mapping-slot-returned-before-connection-closed", fmt.Sprintf("activeConnCount=%d but %d connections of the mapping are still open after %v (localConn.Close() has not returned)", got, live, op))
 			}
-		} else if !waitFor(func() bool { return tm.CountTunnels() == live }) {
-			out.fail("harness", fmt.Sprintf("tunnel manager reports %d tunnels, harness expects %d", tm.CountTunnels(), live))
+		} else if !waitFor(func() bool { return tm.CountTunnels() == live-survivors }) {
+			out.fail("harness", fmt.Sprintf("tunnel manager reports %d tunnels, harness expects %d", tm.CountTunnels(), live-survivors))
 		}
 		if res == 3 { // OnClosed runs after UnregisterTunnel; give the release a moment to land before sampling
-			waitFor(func() bool { return h.VerifActiveConnCount() <= live })
+			waitFor(func() bool { return h.VerifActiveConnCount() <= live-survivors })
 		}
 		out.Counts = append(out.Counts, [2]int{h.VerifActiveConnCount(), live})
 		if live > out.MaxSeen {
@@ -1150,11 +1206,11 @@ func runMapSeq(c caseIn) *caseOut {
 		if got := h.VerifActiveConnCount(); got < 0 {
 			out.fail("mapping-slot-double-release", fmt.Sprintf("activeConnCount=%d (below zero) with %d live tunnels after %v: a slot was released twice", got, live, op))
 		}
-		if got := h.VerifActiveConnCount(); got > live {
+		if got := h.VerifActiveConnCount(); got > live-survivors {
 			// no arrival is in flight here: slots may only be held by live tunnels
 			out.fail("mapping-slot-leak", fmt.Sprintf("activeConnCount=%d but only %d tunnels of the mapping are live after %v", got, live, op))
 		}
-		if got := h.VerifActiveConnCount(); got >= 0 && got < live && countsHolders {
+		if got := h.VerifActiveConnCount(); got >= 0 && got < live-survivors && countsHolders {
 			// every live tunnel holds a slot: nobody may be let through uncounted (not even during a quota fault)
 			out.fail("mapping-slot-not-counted", fmt.Sprintf("activeConnCount=%d but %d tunnels of the mapping are live after %v: a connection was admitted without taking a slot", got, live, op))
 		}
@@ -1419,8 +1475,12 @@ func newQuotaWorld(kind string, max, pre int, out *caseOut) *quotaWorld {
 	}
 	w.admit = func(code string) error {
 		if kind == "code" {
+			addr := "tcp://127.0.0.1:80"
+			if code != "" { // the racing requests of ONE client name DIFFERENT target addresses: the quota is per client
+				addr = code
+			}
 			_, err := svc.CreateConnectionCode(&services.CreateConnectionCodeRequest{
-				TargetClientID: targetClient, TargetAddress: "tcp://127.0.0.1:80", CreatedBy: "verif"})
+				TargetClientID: targetClient, TargetAddress: addr, CreatedBy: "verif"})
 			return err
 		}
 		_, err := svc.ActivateConnectionCode(&services.ActivateConnectionCodeRequest{
@@ -1474,6 +1534,10 @@ func runQuota(c caseIn) *caseOut {
 	if c.Kind == "mapping" { // one fresh code per caller
 		for i := 0; i < n; i++ {
 			codes[i] = w.newCode(i)
+		}
+	} else { // every caller asks for a code for another target address
+		for i := 0; i < n; i++ {
+			codes[i] = fmt.Sprintf("tcp://10.0.0.%d:%d", 1+i, 8000+i)
 		}
 	}
 	callers := make([]*qcaller, n)
